@@ -45,9 +45,37 @@ def run(F, rep, tier):
     chained_namespace(F, rep)
 
 
+def _tree_roles(fn):
+    """work list (the local that is popped), visited set (the hash/btree set that is tested and filled), reader (the
+    function-typed parameter that loads a file)"""
+    from hir import local_bindings
+    binds = local_bindings(fn)
+    roles = {}
+    for c in nodes(fn_body(fn), "MethodCall"):
+        r = peel(c["recv"])
+        if r.get("k") != "Path" or r.get("res") != "Local":
+            continue
+        ty = (binds.get(r["hid"], {}).get("ty") or r.get("ty") or "")
+        if c["m"] == "pop" and "Vec<" in ty:
+            roles.setdefault("to_visit", r["hid"])
+        if c["m"] in ("contains", "insert") and ("HashSet<" in ty or "BTreeSet<" in ty):
+            roles.setdefault("visited", r["hid"])
+    for prm in fn.get("params", []):
+        for b in pat_bindings(prm["pat"]):
+            if b["name"] != "self" and any(c.get("k") == "Call" and peel(c["f"]).get("hid") == b["hid"] for c in nodes(fn_body(fn))):
+                roles.setdefault("reader", b["hid"])
+    return roles
+
+
 def visit_once(F, rep):
-    fn = F.fn(P + "tree")
-    rep.analysed(fn)
+    from hir import with_roles
+    fn0 = F.fn(P + "tree")
+    rep.analysed(fn0)
+    roles = _tree_roles(fn0)
+    if set(roles) != {"to_visit", "visited", "reader"}:
+        rep.anchor_missing("work list / visited set / reader of tree() (found: %s)" % sorted(roles))
+        return
+    fn = with_roles(fn0, roles)
     body = fn_body(fn)
     loop = None
     for n in nodes(body, "Loop"):
@@ -105,9 +133,13 @@ def visit_once(F, rep):
     # module(): use_files collected from Use | FromUse
     mo = F.fn(P + "module")
     got = set()
+    # the collection of imported files: the Vec<FileOrLib> local that module() returns as the first half of its result
+    from hir import local_bindings
+    mb = local_bindings(mo)
+    files_h = {h for h, b in mb.items() if "Vec<sylt_common::FileOrLib>" in (b.get("ty") or "").replace("alloc::vec::", "")}
     for m in matches_on(fn_body(mo), P + "statement::StatementKind"):
         for arm, alt, vp in arm_alternatives(m):
-            if vp and any(c["m"] == "push" and "use_files" in pp(c["recv"]) for c in nodes(arm["body"], "MethodCall")):
+            if vp and any(c["m"] == "push" and peel(c["recv"]).get("hid") in files_h for c in nodes(arm["body"], "MethodCall")):
                 got.add(last(vp))
     rep.ob("VISIT-ONCE", "module|collects-imports", got == {"Use", "FromUse"}, "module() reports the files of both `use` and `from .. use` statements (%s)" % sorted(got), mo["sp"])
 
@@ -247,7 +279,11 @@ def path_forms(F, rep):
         e = peel_clone(e)
         t = fl.trace(e)
         txt = pp(t)
-        return "trim" not in txt and txt.endswith("path_ident.name")
+        t0 = peel_clone(t)
+        while t0.get("k") in ("Unary", "AddrOf", "Ref"):
+            t0 = peel_clone(t0["e"])
+        is_ident_name = t0.get("k") == "Field" and t0["name"] == "name" and "sylt_parser::Identifier" in (t0.get("base_ty") or "")
+        return "trim" not in txt and is_ident_name
     for i in ifs:
         c = peel(i["c"])
         if c.get("k") == "MethodCall" and c["m"] == "starts_with" and peel(c["args"][0]).get("v") == "/":
